@@ -32,6 +32,8 @@ ENVS = [
       ("def", "B1", "A")), "B1", BARE, "A"),
     ("bundle-own-prefix", (("bun", "B1", ("C", "b1", Q("bn"))), ("ns", "B1", "ex", "A")), "B1", S("ex"), "A"),
     ("foreign-qname/bundle", (("bun", "B1", ("C", "b1", Q("bn"))),), "B1", Q("zz"), "A"),
+    # a prefix that PROV-JSON reserves as the key of the default namespace
+    ("prefix-named-default", (("ns", "D", "default", "A"),), "D", S("default"), "A"),
     ("doc-and-bundle-records",
      (("ns", "D", "ex", "A"), ("el", "D", "entity", ("A", "top", S("ex"))), ("bun", "B1", ("A", "b1", S("ex")))),
      "B1", S("ex"), "A"),
